@@ -61,6 +61,17 @@ func c09Params(tier string) []*kvops.Params {
 		}
 		out = append(out, p)
 	}
+	// non-initial start states: the key already stored with an expiry (and touched by a counter), a
+	// lock held, an expiry re-set - the same depth reaches two steps further into these histories
+	for _, pre := range [][]clustermc.Ev{{ev("put", 0, 0, "PX"), ev("incr", 0, 1, "")}, {ev("lock", 0, 1, ""), ev("tick", 0, 1, "")}, {ev("put", 0, 0, ""), ev("expire", 0, 0, "")}} {
+		for _, c := range []cf{{2, 1, "EN", false, 0}, {2, 2, "CC", false, 0}} {
+			out = append(out, &kvops.Params{
+				Name:  fmt.Sprintf("N=%d R=%d entry=%s defaultTTL=%v start=%s;%s", c.n, c.r, c.entry, c.ttl, pre[0].K+pre[0].S, pre[1].K),
+				Opts:  simcluster.Opts{N: c.n, Replicas: c.r, WriteQ: 1, ReadQ: 1, Partitions: 7},
+				Entry: c.entry, DMap: "d", Keys: []string{"k"}, Alpha: alpha, Depth: depth - 1, Visible: true, Pre: pre,
+			})
+		}
+	}
 	return out
 }
 
@@ -83,7 +94,7 @@ func init() {
 			perSpec = 1500
 		}
 		for _, p := range c09Params(c.Tier) {
-			if (p.Entry == "EO" || p.Entry == "EN" || p.Entry == "CC") && p.DefaultTTL == 0 && p.Opts.TableSize == 0 {
+			if (p.Entry == "EO" || p.Entry == "EN" || p.Entry == "CC") && p.DefaultTTL == 0 && p.Opts.TableSize == 0 && len(p.Pre) == 0 {
 				traces = append(traces, kvops.ConformTraces(p, 3, perSpec)...)
 			}
 		}
